@@ -220,6 +220,15 @@ func c06Run(r *vt.Run, c c06Case, report bool) (canon string) {
 				} else if after != nil {
 					nFiled++
 				}
+			case "workerToMaster":
+				// an external worker asks for the master to be where it already is (the CLI refuses such a
+				// request itself; nothing stops a worker writing the key directly)
+				w.Advance(time.Second)
+				if before == nil {
+					s := Switchover{To: h.MasterKey(), Cause: CauseWorker, InitiatedBy: "worker", InitiatedAt: time.Now(), MasterTransition: SwitchoverTransition}
+					w.ZK.Put(vns+"/switch", jsonStr(s))
+					nFiled++
+				}
 			case "workerTo3", "workerNoTransition":
 				// an external worker creates the key only if absent (ZooKeeper create semantics)
 				w.Advance(time.Second)
@@ -459,6 +468,12 @@ func checkC06(r *vt.Run) {
 		focus := []string{"tick", "fileForced", "fileFrom1", "stuckOn", "h2dies", "abort", "advT", "masterDies"}
 		vBFS(r, "focus|", focus, depth+1, enabled, runner)
 		r.Bound("focus_alphabet_depth", depth+1)
+		// from "a planned switchover failed after the freeze and was aborted": every node is still
+		// read-only, no request is pending
+		aborted := []string{"fileTo3", "failChangeOn", "tick", "abort", "failChangeOff"}
+		vBFS(r, "after-aborted-attempt|", append([]string{"workerToMaster"}, c06Alphabet...), depth-1, enabled, func(hist []string) string {
+			return runner(append(append([]string(nil), aborted...), hist...))
+		})
 		// long histories: a request whose attempts keep failing, one attempt every 5 s, until well past
 		// the timeout (each attempt is younger than the timeout, the request is not)
 		for _, kind := range []string{"fileForced", "fileFrom1", "workerNoTransition"} {
